@@ -214,7 +214,7 @@ pub struct QueryDef {
     pub args: Value,
 }
 
-fn queries(msgs: &[(u64, String)], head: u64, big: bool) -> Vec<QueryDef> {
+pub fn queries(msgs: &[(u64, String)], head: u64, big: bool) -> Vec<QueryDef> {
     let mut q = Vec::new();
     let mk = |name: String, class: &'static str, args: Value| QueryDef { name, class, args };
     q.push(mk("replay".into(), "replay", json!({})));
@@ -252,7 +252,7 @@ fn queries(msgs: &[(u64, String)], head: u64, big: bool) -> Vec<QueryDef> {
 }
 
 /// Run one query on a store directory (fresh App). Result is normalised JSON.
-fn run_query(store: &Store, thread: &str, q: &QueryDef) -> Value {
+pub fn run_query(store: &Store, thread: &str, q: &QueryDef) -> Value {
     // only `compile` needs the whole engine; everything else runs on a bare ContinuityStore
     let app = if q.class == "compile" {
         match App::open(store, None) {
@@ -675,7 +675,7 @@ pub fn execute(plan: &Plan, only_faults: Option<&[usize]>) -> Outcome {
     out
 }
 
-fn diff_summary(a: &Value, b: &Value) -> String {
+pub fn diff_summary(a: &Value, b: &Value) -> String {
     fn walk(a: &Value, b: &Value, path: &str, out: &mut Vec<String>) {
         if out.len() >= 3 {
             return;
